@@ -1,7 +1,220 @@
-(* C19 — property theorems (stub, being written) *)
-From Coq Require Import List NArith Bool.
+(* C19 — property theorems.  Only statements (closed by [exact] of a lemma of
+   Proofs.v) and non-vacuity examples.  Vocabulary (geb, q_run, reach, selects,
+   Inv, wf, compat, stat_faithful, scanning, with_scan, qix, ar_del_all) is
+   defined at the end of Model.v. *)
+From Coq Require Import List NArith Arith Bool Sorted.
 Require Import BobV.Gen.ConstsC19 BobV.C19.Model BobV.C19.Proofs.
 Import ListNotations.
 Open Scope N_scope.
 
-Theorem stub : True. Proof. exact dry_stub. Qed.
+(* P1. The bounded queue of RetainExpression.evaluate: after ANY sequence of
+   arrivals (distinct build-ids) it holds min(n, #arrivals) items, every retained
+   item is at least as good (ORDER BY key, ASC or DESC, undefined key last) as
+   every dropped one, best first. *)
+Theorem limit_queue_topn : forall asc n its,
+  (0 < n)%nat -> NoDup (map fst its) ->
+  let q := q_run asc n its in
+  length q = Nat.min n (length its) /\ incl q its /\ NoDup (map fst q) /\
+  (forall x y, In x q -> In y its -> ~ In y q -> geb asc (snd x) (snd y) = true) /\
+  StronglySorted (fun a b : qitem => geb asc (snd a) (snd b) = true) q.
+Proof. exact limit_queue_topn_proof. Qed.
+
+(* geb is a total preorder with undefined keys strictly last. *)
+Theorem sort_order_total : forall asc,
+  (forall a, geb asc a a = true) /\
+  (forall a b, geb asc a b = true \/ geb asc b a = true) /\
+  (forall a b c, geb asc a b = true -> geb asc b c = true -> geb asc a c = true) /\
+  (forall k, geb asc (Some k) None = true /\ geb asc None (Some k) = false).
+Proof. exact sort_order_total_proof. Qed.
+
+(* P1. query: a successful query returns the union of what every expression
+   [selects]: without LIMIT all matching artifacts; with LIMIT n a duplicate-free
+   subset of the matching ones of size min(n, #matching) such that no artifact
+   left out has a strictly better sort key than one taken. *)
+Theorem query_selects : forall I es S,
+  NoDup (build_ids I) -> query I es = Ok S ->
+  exists rs Ss, Forall2 (fun e r => e = RGood r /\ r_limit r <> Some 0) es rs /\
+                Forall2 (selects I) rs Ss /\
+                forall x, In x S <-> exists S1, In S1 Ss /\ In x S1.
+Proof. exact query_spec. Qed.
+
+(* P1. clean keeps every artifact that is selected or reachable from a selected
+   one through the references (qix = the index the command works on: the
+   rescanned one, or with -n the stored one). *)
+Theorem clean_keeps_selected_and_closure : forall noscan fail es I A o I' A',
+  run_cmd (CClean false noscan fail es) I A = (o, I', A') -> o_status o = SOk ->
+  exists sel, query (qix noscan I A) es = Ok sel /\
+    forall f, In f A -> reach (qix noscan I A) sel (f_bid f) -> In f A'.
+Proof. exact clean_keeps_selected_and_closure_proof. Qed.
+
+(* P1. ... and deletes every other indexed artifact: a file survives iff it is
+   retained or not in the index at all. *)
+Theorem clean_deletes_everything_else : forall noscan fail es I A o I' A',
+  run_cmd (CClean false noscan fail es) I A = (o, I', A') -> o_status o = SOk ->
+  exists sel, query (qix noscan I A) es = Ok sel /\
+    forall f, In f A' <-> In f A /\ (reach (qix noscan I A) sel (f_bid f) \/
+                                     ~ In (f_bid f) (build_ids (qix noscan I A))).
+Proof. exact clean_deletes_everything_else_proof. Qed.
+
+(* P1. --dry-run, find, scan and every command that fails delete nothing. *)
+Theorem dry_run_deletes_nothing : forall c I A,
+  (match c with CClean false _ _ _ => o_status (fst (fst (run_cmd c I A))) <> SOk | _ => True end) ->
+  snd (run_cmd c I A) = A.
+Proof. exact dry_run_deletes_nothing_proof. Qed.
+
+(* ... and --dry-run prints exactly what the same clean deletes. *)
+Theorem dry_run_lists_victims : forall noscan fail es I A,
+  let d := run_cmd (CClean true noscan fail es) I A in
+  let r := run_cmd (CClean false noscan fail es) I A in
+  o_status (fst (fst d)) = o_status (fst (fst r)) /\
+  (o_status (fst (fst d)) = SOk ->
+   forall f, In f (snd r) <-> In f A /\ ~ In (f_bid f) (o_list (fst (fst d)))).
+Proof. exact dry_run_lists_victims_proof. Qed.
+
+(* P1. find lists exactly the directly selected artifacts (sorted, no
+   duplicates, nothing that is only referenced) and changes nothing. *)
+Theorem find_lists_exactly_selected : forall noscan fail es I A o I' A',
+  run_cmd (CFind noscan fail es) I A = (o, I', A') -> o_status o = SOk ->
+  exists sel, query (qix noscan I A) es = Ok sel /\ o_list o = usort sel /\
+              (forall b, In b (o_list o) <-> In b sel) /\ A' = A.
+Proof. exact find_lists_exactly_selected_proof. Qed.
+
+(* P1. scan makes the index the exact image of the archive, whatever index
+   (consistent with an earlier archive content A0) it started from. *)
+Theorem scan_index_exact : forall I cl A0 A,
+  Inv I A0 -> wf A0 -> wf A -> compat A0 A -> Inv (fst (scan (I, cl) A)) A.
+Proof. exact scan_Inv. Qed.
+
+(* P1. Index transparency: after ANY history of uploads, removals, in-place
+   replacements, touches and earlier commands (scanning or -n, failing or not),
+   every command that scans gives the result (output, remaining artifacts, new
+   index) it gives on a freshly built index.  Hypothesis: binStat identifies
+   content (same name and stat => same audit trail). *)
+Theorem index_transparent : forall h c,
+  stat_faithful h -> scanning c = true ->
+  run_cmd c (fst (hist_state ix_empty [] h)) (snd (hist_state ix_empty [] h)) =
+  run_cmd c ix_empty (snd (hist_state ix_empty [] h)).
+Proof. exact index_transparent_proof. Qed.
+
+(* P1. What -n means precisely: on an index that is the image of the archive
+   content A0 of the last scan, the command gives the status and the list that
+   the scanning command gives on A0 (freshly indexed), and deletes from the
+   present archive A the artifacts V that this command deletes from A0. *)
+Theorem noscan_uses_last_scan : forall c I A A0,
+  scanning c = false -> Inv I A0 -> wf A0 ->
+  exists V,
+    run_cmd c I A =
+      ({| o_status := o_status (fst (fst (run_cmd (with_scan c) ix_empty A0)));
+          o_noaudit := [];
+          o_list := o_list (fst (fst (run_cmd (with_scan c) ix_empty A0))) |},
+       snd (fst (run_cmd (with_scan c) ix_empty A0)),
+       ar_del_all V A) /\
+    snd (run_cmd (with_scan c) ix_empty A0) = ar_del_all V A0 /\
+    Inv (snd (fst (run_cmd (with_scan c) ix_empty A0))) (ar_del_all V A0).
+Proof. exact noscan_uses_last_scan_proof. Qed.
+
+(* End to end, in terms of the archive content only: after a scanning clean a
+   file is left iff it was there and it has no audit trail (not an artifact) or
+   is selected / transitively referenced, where the index K is the exact image
+   of the archive (Inv K A; its build-ids are distinct, so query_selects
+   describes sel). *)
+Theorem clean_exact_on_archive : forall I A0 A fail es o I' A',
+  Inv I A0 -> wf A0 -> wf A -> compat A0 A ->
+  run_cmd (CClean false false fail es) I A = (o, I', A') -> o_status o = SOk ->
+  let K := fst (scan (ix_empty, false) A) in
+  Inv K A /\ NoDup (build_ids K) /\
+  exists sel, query K es = Ok sel /\
+    forall f, In f A' <-> In f A /\ (f_audit f = None \/ reach K sel (f_bid f)).
+Proof. exact clean_exact_on_archive_proof. Qed.
+
+(* P2. The closure loop always terminates within the model's fuel. *)
+Theorem closure_loop_fuel_enough : forall c I A, o_status (fst (fst (run_cmd c I A))) <> SFuel.
+Proof. exact never_out_of_fuel_proof. Qed.
+
+(* P2. The closure computed by the loop is reachability over the refs table. *)
+Theorem closure_is_reachability : forall I S0 R,
+  closure I S0 = Some R -> forall x, In x R <-> reach I S0 x.
+Proof. exact closure_correct. Qed.
+
+(* P2. Audit-level references: exactly the dist artifacts reachable through
+   non-dist dependency records; nothing below a dist artifact. *)
+Theorem refs_skip_intermediate : forall au b,
+  In b (audit_refs au) <-> dist_reach (au_deps au) b.
+Proof. exact refs_skip_intermediate_proof. Qed.
+
+(* ------------------------------------------------------------------------
+   non-vacuity: concrete instances, evaluated
+   ------------------------------------------------------------------------ *)
+Definition s_a : str := [97].   Definition s_b : str := [98].   Definition s_c : str := [99].
+Definition b1 : bid := [1].  Definition b2 : bid := [2].  Definition b3 : bid := [3].
+Definition b4 : bid := [4].  Definition b5 : bid := [5].
+
+Example limit_queue_nonvacuous :   (* LIMIT 2 DESC over keys b, undefined, c, b, a: c and the later b stay *)
+  q_run false 2 [(b1, Some s_b); (b2, None); (b3, Some s_c); (b4, Some s_b); (b5, Some s_a)]
+  = [(b3, Some s_c); (b4, Some s_b)]
+  /\ q_run true 3 [(b1, None); (b2, Some s_b); (b3, None)] = [(b2, Some s_b); (b1, None); (b3, None)].
+Proof. split; vm_compute; reflexivity. Qed.
+
+Definition mk_vars (pkg date : str) : vars :=
+  [([109;101;116;97], [([112;97;99;107;97;103;101], pkg)]);       (* meta.package *)
+   ([98;117;105;108;100], [([100;97;116;101], date)]);             (* build.date *)
+   ([109;101;116;97;69;110;118], [])].
+Definition mk_file (b : bid) (st : N) (pkg date : str) (deps : list arec) : afile :=
+  {| f_bid := b; f_stat := st; f_audit := Some {| au_vars := mk_vars pkg date; au_deps := deps |} |}.
+Definition e_pkg (v : str) : ex := ECmp OEq (EVar [[109;101;116;97]; [112;97;99;107;97;103;101]]) (ELit v).
+Definition r_pkg (v : str) (lim : option N) : rsrc :=
+  RGood {| r_expr := e_pkg v; r_limit := lim; r_sort := None; r_asc := false |}.
+
+(* b3 -> (build step) -> b2 -> b1; b4 unrelated; b5 = older build of the same package *)
+Definition hist0 : list event :=
+  [EPut (mk_file b1 1 s_c s_a []);
+   EPut (mk_file b2 2 s_b s_a [ARec true b1 []]);
+   EPut (mk_file b3 3 s_a s_b [ARec false b5 [ARec true b2 [ARec true b4 []]]]);
+   EPut (mk_file b4 4 s_c s_a []);
+   EPut (mk_file b5 5 s_a s_a [ARec true b4 []]);
+   ECmd (CScan false);
+   EDel b2;                                        (* the intermediate artifact vanishes *)
+   EPut (mk_file b5 6 s_a s_a [])].                (* in-place rebuild without the reference *)
+
+Example clean_nonvacuous :
+  (* keep the newest artifact of package "a": b3 stays, b1 (only referenced by the vanished b2), b4 (only
+     referenced by the replaced b5 and below the dist record b2) and the older b5 go *)
+  let s := hist_state ix_empty [] hist0 in
+  let '(o, I', A') := run_cmd (CClean false false false [r_pkg s_a (Some 1)]) (fst s) (snd s) in
+  o_status o = SOk /\ usort (ar_bids (snd s)) = [b1; b3; b4; b5] /\ usort (ar_bids A') = [b3]
+  /\ o_list (fst (fst (run_cmd (CClean true false false [r_pkg s_a (Some 1)]) (fst s) (snd s)))) = [b1; b4; b5]
+  /\ o_list (fst (fst (run_cmd (CFind false false [r_pkg s_a None; r_pkg s_c (Some 1)]) (fst s) (snd s)))) = [b3; b4; b5].
+Proof. vm_compute. repeat split; reflexivity. Qed.
+
+Example index_transparent_nonvacuous :
+  stat_faithful hist0 /\
+  fst (hist_state ix_empty [] hist0) <> ix_empty /\
+  fst (hist_state ix_empty [] hist0) <> fst (scan (ix_empty, false) (snd (hist_state ix_empty [] hist0))) /\
+  run_cmd (CClean false false false [r_pkg s_a (Some 1)]) (fst (hist_state ix_empty [] hist0)) (snd (hist_state ix_empty [] hist0))
+  = run_cmd (CClean false false false [r_pkg s_a (Some 1)]) ix_empty (snd (hist_state ix_empty [] hist0)).
+Proof.
+  split; [|split; [|split]].
+  - intros g f Hg Hf. unfold hist0 in *. simpl in Hg, Hf.
+    repeat (destruct Hg as [Hg|Hg]; [try discriminate; try (injection Hg as <-)|]); try contradiction;
+    repeat (destruct Hf as [Hf|Hf]; [try discriminate; try (injection Hf as <-)|]); try contradiction;
+    vm_compute; intros; try reflexivity; try discriminate.
+  - vm_compute. discriminate.
+  - vm_compute. discriminate.
+  - vm_compute. reflexivity.
+Qed.
+
+Example noscan_nonvacuous :
+  (* with -n the stale index of hist0 still knows the vanished b2 and follows its reference: b1 survives
+     (a scanning clean deletes it, see clean_nonvacuous) *)
+  let s := hist_state ix_empty [] hist0 in
+  usort (ar_bids (snd (run_cmd (CClean false true false [r_pkg s_a (Some 1)]) (fst s) (snd s)))) = [b1; b3].
+Proof. vm_compute. reflexivity. Qed.
+
+Example query_error_nonvacuous :
+  (* build.date < "b" on an artifact without build section is a query error and deletes nothing *)
+  let A := [{| f_bid := b1; f_stat := 1; f_audit := Some {| au_vars := [([109;101;116;97], [])]; au_deps := [] |} |}] in
+  let c := CClean false false false
+             [RGood {| r_expr := ECmp OLt (EVar [[98;117;105;108;100]; [100;97;116;101]]) (ELit s_b);
+                       r_limit := None; r_sort := None; r_asc := false |}] in
+  o_status (fst (fst (run_cmd c ix_empty A))) = SErr /\ snd (run_cmd c ix_empty A) = A.
+Proof. vm_compute. split; reflexivity. Qed.
